@@ -410,6 +410,81 @@ def once_per_pair(cond, a, b, polarity=True):
     return (lt != gt) and eq
 
 
+def _named_of(ctx, deps, a, b):
+    named = set()
+    for dep in deps:
+        t, pol = ctx.dep_term(dep)
+        if t is None:
+            continue
+        for st in subterms(t):
+            if st[0] == 'var' and st != a and st != b and not (b[0] == 'deref' and st == b[1]) and \
+                    ctx.fn.unit.decl(st[1]).get('ctype') in ('unsigned int', 'const unsigned int'):
+                named.add(st)
+    return named
+
+
+def half_edge_scenarios(ctx, ev, pair):
+    """Concrete scenarios for an undirected pair {p,q} visited as the half-edges (i=p,*j=q) and (i=q,*j=p) in a bulk
+    loop whose condition may name a third vertex v: [(is_loop, [env of each half-edge])]; and a function reach(node,
+    env) -> True/False/None deciding by a walk of the list-loop body under env whether the node executes for that
+    half-edge.  None when the erase is not inside a recognised list loop or two other vertices are named."""
+    a, b = pair
+    loopnode = _list_loop_of(ctx, ev)
+    if loopnode is None:
+        return None
+    named = _named_of(ctx, list(ctx.region(ev.node)), a, b)
+    if len(named) > 1:
+        return None
+    v = named.pop() if named else None
+    out = []
+    for (p, q) in ((1, 2), (1, 1)):
+        for vv in ((1, 2, 3) if p != q else (1, 3)):
+            if v is None and vv != 3:
+                continue
+            halves = []
+            for (x, y) in (((p, q), (q, p)) if p != q else ((p, q),)):
+                env = {a: x, b: y}
+                if v is not None:
+                    env[v] = vv
+                halves.append(env)
+            out.append((p == q, halves))
+
+    def reach(node, env):
+        return PairEngine._eval_cond_paths(None, ctx, node, loopnode, env)
+    return out, reach
+
+
+def once_per_pair_named(ctx, cnode, ev, pair):
+    """the companion executes for exactly one of the two half-edges of every non-loop pair both of whose half-edges are
+    erased here, and for a loop - also when its guard is phrased with the vertex the bulk operation is about
+    (`i == vertex`).  True / False / None (not decidable in the order domain)"""
+    r = half_edge_scenarios(ctx, ev, pair)
+    if r is None:
+        return None
+    sc, reach = r
+    for is_loop, halves in sc:
+        hs = [reach(ev.node, env) for env in halves]
+        if None in hs:
+            return None
+        if is_loop:
+            if hs[0]:
+                g = reach(cnode, halves[0])
+                if g is None:
+                    return None
+                if not g:
+                    return False
+        else:
+            if hs[0] and hs[1]:
+                g1, g2 = reach(cnode, halves[0]), reach(cnode, halves[1])
+                if g1 is None or g2 is None:
+                    return None
+                if g1 == g2:
+                    return False
+            elif hs[0] or hs[1]:
+                return None
+    return True
+
+
 # ------------------------------------------------------------------------------------------------
 def _is_full_vertex_loop(ctx, nid):
     """The innermost enclosing loops of nid that iterate a vertex over the whole graph.
@@ -585,13 +660,16 @@ def removed_count_term(ctx, ev, t):
     return False
 
 
-def _benign_extra(ctx, deps, ev=None, pair=None):
+def _benign_extra(ctx, deps, ev=None, pair=None, enode=None, cnode=None):
     """Classify extra control dependences of a companion relative to its A-event.
     Returns (ok, notes).  Recognised benign guards:
       - `removedCount > 0` / `!= 0` where removedCount is the removed-entry count of ev (removeAll)
       - once-per-pair guard over `pair` (undirected bulk forms)
     """
     notes = []
+    if pair is not None and enode is not None and cnode is not None and deps:
+        if once_per_pair_named(ctx, cnode, enode, pair) is True:
+            return True, ['once-per-pair guard (named vertex)']
     for dep in deps:
         t, pol = ctx.dep_term(dep)
         if t is None:
@@ -976,7 +1054,7 @@ class PairEngine:
                 if not extra_c:
                     decs.append((c, 'same region'))
                 elif bulk or (dedupe and ctx.undirected):
-                    ok, notes = _benign_extra(ctx, extra_c, None, pair)
+                    ok, notes = _benign_extra(ctx, extra_c, None, pair, e, c.node)
                     if ok:
                         decs.append((c, 'once-per-pair'))
         want_guard = bool(ctx.undirected and (bulk or dedupe))
@@ -1007,7 +1085,7 @@ class PairEngine:
                     if not extra_c:
                         er.append(c)
                     elif bulk:
-                        ok, notes = _benign_extra(ctx, extra_c, None, pair)
+                        ok, notes = _benign_extra(ctx, extra_c, None, pair, e, c.node)
                         if ok:
                             er.append(c)
             if er:
@@ -1030,8 +1108,23 @@ class PairEngine:
                           classify=self.cls_key(ctx, x, ('deref', cur)))
         elif ctx.labelled and dedupe:
             self.R('F-PAIR.L').sites += 1
-            self.ok('F-PAIR.L', ctx, dict(function=f.display(), event=ctx.desc(e.node), form='dedupe',
-                                          companion='none required: one copy of the pair stays, so its label stays'))
+            offending = None
+            for c in self.companions(ctx, 'L.erase'):
+                k = ctx.key_of(c.args[0], c.node)
+                if k is None:
+                    continue
+                kk = Key(ctx.norm(k.a, e.node), ctx.norm(k.b, e.node), k.ordered)
+                if ctx.key_matches_pair(kk, x, y) or ctx.key_matches_pair(k, x, ('deref', cur)):
+                    extra_c, extra_e = ctx.region_diff(c.node, e.node)
+                    if not extra_e:
+                        offending = c
+            if offending is not None:
+                self.fail('F-PAIR.L', ctx, site + ' <-> label erase', offending.node,
+                          'removing a duplicate copy of a pair erases the label of the pair although one copy of it stays: '
+                          'the surviving edge loses its label')
+            else:
+                self.ok('F-PAIR.L', ctx, dict(function=f.display(), event=ctx.desc(e.node), form='dedupe',
+                                              companion='none required: one copy of the pair stays, so its label stays'))
         if ctx.has_total:
             self.R('F-PAIR.T').sites += 1
             good = []
@@ -1048,7 +1141,7 @@ class PairEngine:
                 if not extra_c:
                     good.append((c, 'same region'))
                 elif want_guard:
-                    ok, notes = _benign_extra(ctx, extra_c, None, pair)
+                    ok, notes = _benign_extra(ctx, extra_c, None, pair, e, c.node)
                     if ok:
                         good.append((c, 'once-per-pair'))
             good = [g for g in good if (g[1] == 'once-per-pair') == want_guard]
@@ -1065,6 +1158,11 @@ class PairEngine:
                         any(st == ('deref', cur) for st in subterms(c.args[0])):
                     ok = False
                     why = ' (the cursor is dereferenced after the erase)'
+                if ok and le is not None and bulk and ctx.undirected:
+                    stale = self._stale_read(ctx, e, pair, le, c)
+                    if stale:
+                        ok = False
+                        why = ' (%s)' % stale
             if ok:
                 self.ok('F-PAIR.T', ctx, dict(function=f.display(), event=ctx.desc(e.node), form=e.extra['form'],
                                               companion=ctx.desc(good[0][0].node), region=good[0][1]))
@@ -1074,6 +1172,25 @@ class PairEngine:
                           'exactly once per removed edge, before the label is erased%s' % why,
                           cands=None if why else [c for c in self.companions(ctx, 'T.') if c.kind in ('T.sub', 'T.set')],
                           classify=self.cls_key(ctx, x, ('deref', cur), reader=True))
+
+    def _stale_read(self, ctx, e, pair, le, reader):
+        """rows are visited in ascending order, so of the two half-edges of a pair the one in the lower row comes first:
+        the label must not be erased there when it is read (for the total) only at the second one"""
+        r = half_edge_scenarios(ctx, e, pair)
+        if r is None:
+            return None
+        sc, reach = r
+        for is_loop, halves in sc:
+            if is_loop:
+                continue
+            e1, e2 = halves
+            if not (reach(e.node, e1) is True and reach(e.node, e2) is True):
+                continue
+            first, second = (e1, e2) if e1[pair[0]] < e2[pair[0]] else (e2, e1)
+            if reach(le.node, first) is True and reach(reader.node, second) is True and reach(reader.node, first) is not True:
+                return 'for a pair whose lower-numbered endpoint row is visited first the label is erased there, and read for ' \
+                       'the total only at the second half-edge, when it is already gone'
+        return None
 
     # -------------------------------------------------------------------------------------------- clear
     def check_clear(self, ctx, e):
